@@ -225,6 +225,7 @@ func otherActivity() {
 
 // otherActivityLight: encode / decode unrelated claims-sets (no signing).
 func otherActivityLight() {
+	pollute(11) // stock-factory claims changed through their pointers
 	cl := c02Claims()
 	for _, a := range []*refmodel.Claims{cl[3], cl[1]} {
 		if x, err := realise(a); err == nil {
